@@ -7,8 +7,9 @@ which is what `Traces` built by the runner contain). Then
 
 * `honest_rows` — if the witness satisfies every op relation (this is `C02.run_ok_sat` for a
   successful run, plus booleanity of the asserted booleans), the ops are well-formed and the
-  Horner steps form chains (`chainsWF`: a step's accumulator is the previous ALU op's output —
-  the hypothesis whose failure is finding F7), every row constraint vanishes on the cells;
+  Horner steps form chains (`hornerChained`, the model of `validate_horner_chains`: a step's
+  accumulator is the preceding Horner step's output, or a zero constant at the start of a run —
+  the hypothesis whose failure was findings F7 / F20), every row constraint vanishes on the cells;
 * `honest_tupleNet` — the net multiplicity of every tuple `(s, v)` is the slot's net
   multiplicity `netOf` when `v = w s` and 0 otherwise, hence (`honest_bus`) the bus balances
   whenever the per-slot multiplicities cancel, which C09 proves for every circuit whose read
@@ -26,17 +27,9 @@ open P3R P3R.C04 P3R.C09
 
 variable {F : Type} [Field F] [DecidableEq F]
 
-/-- Horner steps form chains: the accumulator of a step is the output slot of the previous ALU op. -/
-def chainsWF : List (Op F) → Option Nat → Bool
-  | [], _ => true
-  | .alu .horner _ _ _ out (some acc) :: ops, prev => (prev == some acc) && chainsWF ops (some out)
-  | .alu .horner _ _ _ _ none :: _, _ => false
-  | .alu _ _ _ _ out _ :: ops, _ => chainsWF ops (some out)
-  | _ :: ops, prev => chainsWF ops prev
-
 theorem holds_rowOk (w pub : Nat → F) (prev : Option (Nat × F)) (op : Op F)
     (hwf : opWF op = true)
-    (hchain : ∀ a b c out acc, op = .alu .horner a b c out (some acc) → prev = some (acc, w acc))
+    (hchain : ∀ a b c out acc, op = .alu .horner a b c out (some acc) → prevAcc prev = w acc)
     (h : op.holds w pub) : rowOkVals pub prev op ((opSlots op).map w) := by
   cases op with
   | const out v => simpa [rowOkVals, opSlots, Op.holds] using h
@@ -84,7 +77,7 @@ theorem holds_rowOk (w pub : Nat → F) (prev : Option (Nat × F)) (op : Op F)
         | none => simp [opWF] at hwf
         | some acc =>
           simp only [rowOkVals, opSlots, List.map, List.cons_append, List.nil_append]
-          refine ⟨w acc, hchain a b (some cv) out acc rfl, ?_⟩
+          rw [hchain a b (some cv) out acc rfl]
           rw [C11.hornerSingle_iff 1 (1 : F) one_ne_zero]
           intro i hi; have : i = 0 := by omega
           subst this
@@ -93,10 +86,11 @@ theorem holds_rowOk (w pub : Nat → F) (prev : Option (Nat × F)) (op : Op F)
           rw [← h]
 
 /-- **Honest rows.** -/
-theorem honest_rows (w pub : Nat → F) (ops : List (Op F)) (prev : Option (Nat × F))
+theorem honest_rows (w pub : Nat → F) (zs : List Nat) (hz : ∀ x ∈ zs, w x = 0)
+    (ops : List (Op F)) (prev : Option (Nat × F))
     (hprev : ∀ s v, prev = some (s, v) → v = w s)
     (hsat : Sat w pub ops) (hwf : ∀ o ∈ ops, opWF o = true)
-    (hchain : chainsWF ops (prev.map Prod.fst) = true) :
+    (hchain : hornerChainedFrom zs ops (prev.map Prod.fst) = true) :
     rowsOk pub ops ((ops.flatMap opSlots).map w) prev := by
   induction ops generalizing prev with
   | nil => trivial
@@ -110,26 +104,43 @@ theorem honest_rows (w pub : Nat → F) (ops : List (Op F)) (prev : Option (Nat 
     refine ⟨holds_rowOk w pub prev op hwfo ?_ hop, ?_⟩
     · intro a b c out acc he
       subst he
-      simp only [chainsWF, Bool.and_eq_true, beq_iff_eq] at hchain
+      simp only [hornerChainedFrom, Bool.and_eq_true] at hchain
       cases prev with
-      | none => simp at hchain
+      | none =>
+        simp only [prevAcc]
+        exact (hz acc (by simpa using hchain.1)).symm
       | some sv =>
         obtain ⟨s, v⟩ := sv
-        simp only [Option.map_some, Option.some.injEq] at hchain
-        have hs : s = acc := hchain.1
-        subst hs
-        rw [hprev s v rfl]
+        simp only [prevAcc]
+        have hs : acc = s := by simpa using hchain.1
+        rw [hprev s v rfl, hs]
     · cases op with
       | alu k a b c out io =>
-        have hnp : nextPrev prev (.alu k a b c out io) ((opSlots (.alu k a b c out io : Op F)).map w)
-            = some (out, w out) := by cases c <;> simp [nextPrev, opSlots]
-        rw [hnp]
-        refine ih (some (out, w out)) (by intro s v h; cases h; rfl) hsat' hwf' ?_
-        cases k <;> cases io <;> simp_all [chainsWF]
-      | const _ _ => simpa [nextPrev] using ih prev hprev hsat' hwf' (by simpa [chainsWF] using hchain)
-      | pub _ _ => simpa [nextPrev] using ih prev hprev hsat' hwf' (by simpa [chainsWF] using hchain)
-      | hint _ _ _ => simpa [nextPrev] using ih prev hprev hsat' hwf' (by simpa [chainsWF] using hchain)
-      | npo _ _ _ _ => simpa [nextPrev] using ih prev hprev hsat' hwf' (by simpa [chainsWF] using hchain)
+        cases k with
+        | horner =>
+          rw [nextPrev_horner]
+          refine ih (some (out, w out)) (by intro s v h; cases h; rfl) hsat' hwf' ?_
+          cases io with
+          | none => simp [hornerChainedFrom] at hchain
+          | some acc =>
+            simp only [hornerChainedFrom, Bool.and_eq_true] at hchain
+            simpa using hchain.2
+        | add =>
+          rw [nextPrev_alu_other _ _ (by decide)]
+          exact ih none (fun _ _ h => by cases h) hsat' hwf' (by simpa [hornerChainedFrom] using hchain)
+        | mul =>
+          rw [nextPrev_alu_other _ _ (by decide)]
+          exact ih none (fun _ _ h => by cases h) hsat' hwf' (by simpa [hornerChainedFrom] using hchain)
+        | boolCheck =>
+          rw [nextPrev_alu_other _ _ (by decide)]
+          exact ih none (fun _ _ h => by cases h) hsat' hwf' (by simpa [hornerChainedFrom] using hchain)
+        | mulAdd =>
+          rw [nextPrev_alu_other _ _ (by decide)]
+          exact ih none (fun _ _ h => by cases h) hsat' hwf' (by simpa [hornerChainedFrom] using hchain)
+      | const _ _ => simpa [nextPrev] using ih prev hprev hsat' hwf' (by simpa [hornerChainedFrom] using hchain)
+      | pub _ _ => simpa [nextPrev] using ih prev hprev hsat' hwf' (by simpa [hornerChainedFrom] using hchain)
+      | hint _ _ _ => simpa [nextPrev] using ih prev hprev hsat' hwf' (by simpa [hornerChainedFrom] using hchain)
+      | npo _ _ _ _ => simpa [nextPrev] using ih prev hprev hsat' hwf' (by simpa [hornerChainedFrom] using hchain)
 
 /-- The honest cells: every occurrence holds its slot's witness value. -/
 def honestCells (w : Nat → F) (evs : List (Nat × Role)) : List (Cell F) :=
@@ -173,13 +184,17 @@ op relation, with well-formed ops, Horner chains and every read slot created, gi
 meets both acceptance conditions of `C04.accepted_sat`. -/
 theorem honest_accepted (pub w : Nat → F) (c : Circuit F) (p : Prep) (h : genPrep c = some p)
     (hsat : Sat w pub c.ops.toList) (hwf : ∀ o ∈ c.ops.toList, opWF o = true)
-    (hchain : chainsWF c.ops.toList none = true)
+    (hchain : hornerChained c.ops.toList = true)
     (hcreated : ∀ s, readsOf p.reads s ≠ 0 → s ∈ p.defined) :
     rowsOk pub c.ops.toList ((p.events.map Prod.fst).map w) none ∧
     ∀ s v, tupleNet (busOf p.reads (honestCells w p.events)) s v = 0 := by
   refine ⟨?_, honest_bus w p.reads p.events (fun s => C09.bus_balanced c p h hcreated s)⟩
   rw [genPrep_slots c p h]
-  exact honest_rows w pub c.ops.toList none (fun _ _ h => by cases h) hsat hwf (by simpa using hchain)
+  have hconst : ∀ out v, Op.const out v ∈ c.ops.toList → w out = v := by
+    intro out v hm
+    simpa [Op.holds] using hsat _ hm
+  exact honest_rows w pub (zeroConsts c.ops.toList) (zeroConsts_zero w pub _ hconst) c.ops.toList none
+    (fun _ _ h => by cases h) hsat hwf (by simpa [hornerChained] using hchain)
 
 /-- **C10 / from a successful run to an accepted trace.** Whenever the modelled `run` succeeds,
 the public rows carry the public inputs and the asserted booleans are boolean (i.e. the inputs
@@ -192,7 +207,7 @@ theorem run_honest_accepted (canon : F → Nat) (c : Circuit F) (p : Prep) (h : 
     (hbool : ∀ a bb cc out io, Op.alu .boolCheck a bb cc out io ∈ c.ops.toList →
       t.witness.getD a 0 * (t.witness.getD a 0 - 1) = 0)
     (hwf : ∀ o ∈ c.ops.toList, opWF o = true)
-    (hchain : chainsWF c.ops.toList none = true)
+    (hchain : hornerChained c.ops.toList = true)
     (hcreated : ∀ s, readsOf p.reads s ≠ 0 → s ∈ p.defined) :
     rowsOk pub c.ops.toList ((p.events.map Prod.fst).map fun j => t.witness.getD j 0) none ∧
     ∀ s v, tupleNet (busOf p.reads (honestCells (fun j => t.witness.getD j 0) p.events)) s v = 0 := by
